@@ -77,10 +77,11 @@ type DynCase struct {
 }
 
 type Output struct {
-	DynHelper string       `json:"dyn_helper"`
-	Dyn       []DynCase    `json:"dyn"`
-	DynAsIs   []string     `json:"dyn_asis"` // explicit cases that return the value as-is (scalars)
-	Process   *ProcessFact `json:"process"`
+	DynHelper   string                 `json:"dyn_helper"`
+	Dyn         []DynCase              `json:"dyn"`
+	DynAsIs     []string               `json:"dyn_asis"` // explicit cases that return the value as-is (scalars)
+	Process     *ProcessFact           `json:"process"`
+	CopyHelpers []string               `json:"copy_helpers"` // same-package helper functions followed, with the mode found
 	Structs     map[string][]FieldInfo `json:"structs"`
 	StructOrder []string               `json:"struct_order"`
 	Skipped     map[string]string      `json:"skipped"` // ast structs that are not IR data (func/chan fields)
@@ -93,13 +94,16 @@ type Output struct {
 // ---------------------------------------------------------------- world
 
 type world struct {
-	pkgs    map[string]*packages.Package
-	astPkg  *packages.Package
-	out     *Output
-	dynFn   *types.Func
-	methods map[string]*method // receiver base type name -> DeepCopy method
-	done    map[string]bool    // methods analysed
-	busy    map[string]bool
+	pkgs        map[string]*packages.Package
+	astPkg      *packages.Package
+	out         *Output
+	dynFn       *types.Func
+	helpers     map[*types.Func]Mode
+	helperBusy  map[*types.Func]bool
+	helperDepth int
+	methods     map[string]*method // receiver base type name -> DeepCopy method
+	done        map[string]bool    // methods analysed
+	busy        map[string]bool
 }
 
 type method struct {
@@ -263,7 +267,7 @@ func main() {
 		fmt.Fprintln(os.Stderr, "xcopy: load:", err)
 		os.Exit(2)
 	}
-	w := &world{pkgs: map[string]*packages.Package{}, methods: map[string]*method{}, done: map[string]bool{}, busy: map[string]bool{},
+	w := &world{helpers: map[*types.Func]Mode{}, helperBusy: map[*types.Func]bool{}, pkgs: map[string]*packages.Package{}, methods: map[string]*method{}, done: map[string]bool{}, busy: map[string]bool{},
 		out: &Output{Structs: map[string][]FieldInfo{}, Copy: map[string][]FieldMode{}, Skipped: map[string]string{}, Helpers: map[string]string{}}}
 	for _, p := range loaded {
 		if len(p.Errors) > 0 {
